@@ -18,6 +18,10 @@ import CoapVerif.Spec.SendQueue
              p<D>     the peer answers a CON with a PIGGY-BACKED response (ACK, code 2.05, the request's message id and token)
                       arriving D ticks after the transmission;  P<D>+<E>  the same arriving twice (the network duplicated it);
                       a line with such a fate is interpreted with the extended model
+             q<D>     the peer answers a CON with an ACK that carries its message id but a REQUEST code (0.01 … 0.31, e.g. the bytes
+                      60 01 <mid>) arriving D ticks after the transmission;  Q<D>+<E> the same arriving twice.  ACK branch of
+                      `coap_dispatch`: the retransmission stops, then "Request using ACK": NACK BAD_RESPONSE (`Coap.Msg.rxAckReq`,
+                      = `rxBad` by `Coap.C06.ack_request_code_is_bad_ack`)
              x        the socket write of this datagram FAILS (coap_socket_send returns -1: ECONNREFUSED, ENOBUFS, …); nothing
                       leaves; the attempt is printed as txf@T:S:C|N:MID:=.  A line with an `x` fate is interpreted with the
                       write-failure model `Coap.MsgW.stepW` (Model/MsgLayerW.lean); not together with S: / i: / k: events
@@ -27,6 +31,7 @@ import CoapVerif.Spec.SendQueue
                            or the next arrival is reached; arrivals are delivered at their time; run the timers
            g:K             repeat `n` at most K times, stop when nothing is pending
            a:S:MID r:S:MID b:S:MID o:S:MID:TOK   an ACK / RST / invalid-code ACK / NON response (token TOK) arrives now
+           q:S:MID:CODE    an ACK with message id MID whose code is the request method 0.CODE (CODE = 1 … 31) arrives now
            h:S u:S f:S     session no longer established / coap_session_connected / coap_session_disconnected(NOT_DELIVERABLE)
            S:S:c|n:MID:R:TOK   application sends CON/NON with the explicit (2-byte) token TOK
            i:S             an ICMP error is read from the socket of session S (coap_session_disconnected_lkd(ICMP_ISSUE))
@@ -53,6 +58,7 @@ inductive Fate where
   | rst (d : List Nat)
   | fail
   | piggy (d : List Nat)
+  | req (d : List Nat)      -- ACK with a request code
   deriving Repr
 
 structure Arrival where
@@ -62,6 +68,7 @@ structure Arrival where
   isRst : Bool
   mid : Nat
   piggy : Bool := false     -- an ACK that carries a response (its token is the request's: M does not look at it)
+  req : Bool := false       -- an ACK that carries a request code (M does not look at which one)
   deriving Repr
 
 structure Sim where
@@ -109,6 +116,8 @@ def parseFate (w : String) : Option Fate :=
     | 'R' :: r => (nats (String.ofList r) '+').map .rst
     | 'p' :: r => (String.ofList r).toNat?.map fun d => .piggy [d]
     | 'P' :: r => (nats (String.ofList r) '+').map .piggy
+    | 'q' :: r => (String.ofList r).toNat?.map fun d => .req [d]
+    | 'Q' :: r => (nats (String.ofList r) '+').map .req
     | _ => none
 
 def parseFates (w : String) : Option (List Fate) :=
@@ -129,14 +138,15 @@ def react (sm : Sim) : Sim :=
         | [] => (Fate.drop, [])
         | f :: r => (f, r)
       let sm := { sm with fates := rest }
-      let add (sm : Sim) (isRst : Bool) (ds : List Nat) (pg : Bool := false) : Sim :=
-        ds.foldl (fun sm d => { sm with pend := insArr ⟨t + d, sm.seq, s, isRst, mid, pg⟩ sm.pend, seq := sm.seq + 1 }) sm
+      let add (sm : Sim) (isRst : Bool) (ds : List Nat) (pg : Bool := false) (rq : Bool := false) : Sim :=
+        ds.foldl (fun sm d => { sm with pend := insArr ⟨t + d, sm.seq, s, isRst, mid, pg, rq⟩ sm.pend, seq := sm.seq + 1 }) sm
       match f with
       | .drop => sm
       | .fail => sm          -- the write failed (the model consumed the same entry of its oracle): nothing reaches the peer
       | .ack ds => if con then add sm false ds else sm
       | .rst ds => add sm true ds
       | .piggy ds => if con then add sm false ds true else sm
+      | .req ds => if con then add sm false ds false true else sm
     | _ => sm) sm
 
 def evX (sm : Sim) (e : EvX) : Sim :=
@@ -169,7 +179,8 @@ def deliverUpTo : Nat → Sim → Nat → Sim
       if a.time ≤ target then
         let sm := { sm with pend := r }
         let sm := if a.time > sm.l.now then ev sm (.setNow a.time) else sm
-        let sm := if a.piggy then evX sm (.rxAckP a.s a.mid 0)
+        let sm := if a.req then ev sm (.rxBad a.s a.mid)     -- `rxAckReq` = `rxBad` (Coap.C06.ack_request_code_is_bad_ack)
+                  else if a.piggy then evX sm (.rxAckP a.s a.mid 0)
                   else ev sm (if a.isRst then .rxRst a.s a.mid else .rxAck a.s a.mid)
         deliverUpTo fuel sm target
       else sm
@@ -224,6 +235,9 @@ def applyEv (sm : Sim) (w : String) : Option Sim :=
   | ["a", s, mid] => do let s ← s.toNat?; let mid ← mid.toNat?; some (ev sm (.rxAck s mid))
   | ["r", s, mid] => do let s ← s.toNat?; let mid ← mid.toNat?; some (ev sm (.rxRst s mid))
   | ["b", s, mid] => do let s ← s.toNat?; let mid ← mid.toNat?; some (ev sm (.rxBad s mid))
+  | ["q", s, mid, code] => do
+    let s ← s.toNat?; let mid ← mid.toNat?; let code ← code.toNat?
+    if 1 ≤ code ∧ code ≤ 31 then some (ev sm (.rxBad s mid)) else none
   | ["o", s, mid, tok] => do let s ← s.toNat?; let mid ← mid.toNat?; let tok ← tok.toNat?; some (ev sm (.rxNon s mid tok))
   | ["h", s] => do let s ← s.toNat?; some (ev sm (.hold s))
   | ["u", s] => do let s ← s.toNat?; some (ev sm (.connect s))
